@@ -688,10 +688,10 @@ func (g *gen) instr(in ssa.Instruction, st State, reach string) string {
 	case *ssa.MakeMap:
 		r := g.allocRef(st)
 		k, v := mapKV(x.Type())
-		dom, val, size := g.ctx.mapComps(g.ctx.sortOf(k), g.ctx.sortOf(v))
+		dom, val, size := g.ctx.mapCompsT(x.Type())
 		g.locWrite(st, &Loc{Comp: dom, Idx: []string{r}}, "((as const (Array "+g.ctx.sortOf(k)+" Bool)) false)")
 		g.locWrite(st, &Loc{Comp: size, Idx: []string{r}}, "0")
-		_ = val
+		g.locWrite(st, &Loc{Comp: val, Idx: []string{r}}, "((as const (Array "+g.ctx.sortOf(k)+" "+g.ctx.sortOf(v)+")) "+g.ctx.zero(v)+")")
 		g.vals[x] = Val{T: r, S: "Int", GoT: x.Type()}
 	case *ssa.MapUpdate:
 		g.mapUpdate(x, st, reach)
@@ -1366,13 +1366,15 @@ func (g *gen) lookup(x *ssa.Lookup, st State, reach string) {
 	if ks == "Iface" && kv.S != "Iface" {
 		key = g.box(kv, x.Index.Type())
 	}
-	dom, val, _ := g.ctx.mapComps(ks, vs)
+	dom, val, _ := g.ctx.mapCompsT(x.X.Type())
 	in := "(select (select " + g.stGet(st, dom) + " " + mv.T + ") " + key + ")"
 	// a nil map reads as empty
 	in = "(and (not (= " + mv.T + " 0)) " + in + ")"
 	got := "(select (select " + g.stGet(st, val) + " " + mv.T + ") " + key + ")"
 	inN := g.define(x.Name()+"_ok", "Bool", in)
-	valT := "(ite " + inN + " " + got + " " + g.ctx.zero(v) + ")"
+	// convention (mapWF): the value array holds the zero value outside the key set, so a read is a plain select
+	g.mapWF(st, x.X.Type())
+	valT := got
 	if x.CommaOk {
 		ts := g.ctx.tupleSortOf([]string{vs, "Bool"})
 		g.vals[x] = Val{T: g.define(x.Name(), ts, "(mk-"+ts+" "+valT+" "+inN+")"), S: ts, GoT: x.Type()}
@@ -1385,6 +1387,23 @@ func (g *gen) lookup(x *ssa.Lookup, st State, reach string) {
 	if inv := g.typeInv(g.vals[x].T, v, st); inv != "true" {
 		g.ctx.assume(inv)
 	}
+}
+
+// mapWF states the modelling convention for the current (key-set, value) arrays of a map sort: outside
+// the key set — and for the nil map — the value array holds the zero value. It holds for the initial and
+// every havoc'd heap by convention (those entries are unobservable) and is preserved by make, update and
+// delete as modelled here; it lets m[k] be a plain array read in programs, contracts and quantifier patterns.
+func (g *gen) mapWF(st State, mapT types.Type) {
+	mt := mapT.Underlying().(*types.Map)
+	ks, vt := g.ctx.sortOf(mt.Key()), mt.Elem()
+	dom, val, _ := g.ctx.mapCompsT(mapT)
+	d, v := g.stGet(st, dom), g.stGet(st, val)
+	key := "mapwf:" + d + "|" + v
+	if g.ctx.declSeen[key] {
+		return
+	}
+	g.ctx.declSeen[key] = true
+	g.ctx.assume("(forall ((m Int) (k " + ks + ")) (! (=> (not (and (not (= m 0)) (select (select " + d + " m) k))) (= (select (select " + v + " m) k) " + g.ctx.zero(vt) + ")) :pattern ((select (select " + v + " m) k))))")
 }
 
 func (g *gen) mapUpdate(x *ssa.MapUpdate, st State, reach string) {
@@ -1402,7 +1421,7 @@ func (g *gen) mapUpdate(x *ssa.MapUpdate, st State, reach string) {
 		valT = g.box(vv, x.Value.Type())
 	}
 	g.panicCheck("nilmap", x.Pos(), reach, "(not (= "+mv.T+" 0))", "assignment to entry in nil map")
-	dom, val, size := g.ctx.mapComps(ks, vs)
+	dom, val, size := g.ctx.mapCompsT(x.Map.Type())
 	was := "(select (select " + g.stGet(st, dom) + " " + mv.T + ") " + key + ")"
 	g.locWrite(st, &Loc{Comp: size, Idx: []string{mv.T}}, "(+ (select "+g.stGet(st, size)+" "+mv.T+") (ite "+was+" 0 1))")
 	g.locWrite(st, &Loc{Comp: dom, Idx: []string{mv.T, key}}, "true")
@@ -1424,7 +1443,7 @@ func (g *gen) next(x *ssa.Next, st State, reach string) {
 	}
 	k, v := mapKV(rng.X.Type())
 	ks, vs := g.ctx.sortOf(k), g.ctx.sortOf(v)
-	dom, val, _ := g.ctx.mapComps(ks, vs)
+	dom, val, _ := g.ctx.mapCompsT(rng.X.Type())
 	key := g.ctx.fresh("next_key", ks)
 	if inv := g.typeInv(key, k, st); inv != "true" {
 		g.ctx.assume(inv)
